@@ -1,5 +1,7 @@
 (* C18 driver.  Case lines (see harness/cmd/storageharness/c18.go):
      W <commit> <n> <op>...            -> "W <index of the version now current>"
+                                          (commit = 0: rolled back or failed part-way - no version; Properties/C18.v
+                                           failed_transaction_not_a_version; trailing form / fail tokens are not read)
      Q <reader> <tx> <version> <query> -> the serial answer on that version
      R <kind>                          -> "R <current version>" (restore of the current state)
      D <outer> <steps> <at> <kind> <n> -> "D ok <generation the final reader saw> <steps>" (Db/LockTable.v lock_scenario)
